@@ -166,7 +166,8 @@ NamedVal(f, it, envv) ==
   IF it.kind = "switch" THEN (IF Len(occ0) > 1 THEN Many ELSE [ok |-> TRUE, v |-> (n >= 1)])
   ELSE IF bad # {}
        THEN LET k == CHOOSE k \in bad : \A j \in bad : k <= j IN
-            [ok |-> FALSE, why |-> [k |-> Fail(k), id |-> it.id, w |-> occ[k]]]
+            [ok |-> FALSE, why |-> [k |-> Fail(k), id |-> it.id, w |-> occ[k], o |-> k,
+                                    fromenv |-> (occ0 = <<>>)]]
   ELSE IF SingleUse(it) /\ n > 1 THEN Many
   ELSE CASE it.arity = "one"   -> IF n = 1 THEN [ok |-> TRUE, v |-> vs[1]] ELSE Miss
          [] it.arity = "opt"   -> [ok |-> TRUE, v |-> IF n = 0 THEN "NONE" ELSE [some |-> vs[1]]]
@@ -216,7 +217,7 @@ FrameVal(frames, k, envv) ==
   LET f  == frames[k]
       nv == [j \in DOMAIN f.lvl.named |-> NamedVal(f, f.lvl.named[j], envv)]
       badn == {j \in DOMAIN nv : ~nv[j].ok} IN
-  IF badn # {} THEN [ok |-> FALSE, why |-> nv[CHOOSE j \in badn : \A i \in badn : j <= i].why]
+  IF badn # {} THEN [ok |-> FALSE, why |-> nv[CHOOSE j \in badn : \A i \in badn : j <= i].why @@ [f |-> k]]
   ELSE LET base == [j \in DOMAIN nv |-> nv[j].v] IN
     CASE f.lvl.tail.kind = "none" -> IF f.pos = <<>> THEN [ok |-> TRUE, v |-> [t |-> base]]
                                       ELSE [ok |-> FALSE, why |-> [k |-> "surplus"]]
@@ -247,7 +248,7 @@ Outcome(st, envv) ==
 \*   words  : Seq(STRING)   plain words / values      spells : subset of {"sep","eq","glued"}
 \*   extras : subset of {"dd","help","ver","unk"}      clusters : BOOLEAN
 LeafItems(def, it) ==
-  LET A == def.alpha  W == RangeOf(A.words) IN
+  LET A == def.alpha  W == RangeOf(A.eqvals) IN
   IF it.kind # "arg"
   THEN {[t |-> "name", s |-> n, txt |-> n] : n \in NamesOf(it)}
   ELSE (IF "sep" \in RangeOf(A.spells)
@@ -264,7 +265,7 @@ ClusterItems(def, lvl) ==
                   : k \in {k \in DOMAIN lvl.named : lvl.named[k].kind # "arg"}}
       A == UNION {{<<lvl.named[k].shorts[j], lvl.named[k].letters[j]>> : j \in DOMAIN lvl.named[k].shorts}
                   : k \in {k \in DOMAIN lvl.named : lvl.named[k].kind = "arg"}}
-      W == RangeOf(def.alpha.words) IN
+      W == RangeOf(def.alpha.eqvals) IN
   {[t |-> "cluster", s |-> "", v |-> "", ss |-> <<a[1], b[1]>>, last |-> "", hasv |-> FALSE,
     txt |-> "-" \o a[2] \o b[2]] : a \in F, b \in F}
   \cup {[t |-> "cluster", s |-> "", v |-> w, ss |-> <<a[1]>>, last |-> o[1], hasv |-> TRUE,
@@ -343,4 +344,42 @@ AllDelivered == Out.class = "ok" =>
                   /\ \A k \in DOMAIN st.frames : \A j \in DOMAIN st.frames[k].lvl.named :
                         LET it == st.frames[k].lvl.named[j] IN
                         SingleUse(it) => Len(st.frames[k].acc[it.id]) <= 1
+(* ------------------------------------------------------------------ C03: order of named options *)
+\* role of item k of a line in its context (what the acceptor does with it)
+Role(d, l, k) ==
+  LET s == Run(InitSt(d), SubSeq(l, 1, k - 1))  e == l[k] IN
+  IF s.posOnly THEN [r |-> "data"]
+  ELSE IF s.pending # "" THEN (IF e.t = "word" THEN [r |-> "value"] ELSE [r |-> "other"])
+  ELSE IF e.t \in {"name", "eq", "glued"} THEN
+         LET own == Owner(Cur(s).lvl, e.s) IN
+         IF own = {} THEN [r |-> "other"]
+         ELSE LET it == Cur(s).lvl.named[CHOOSE j \in own : TRUE] IN
+              IF e.t = "name" /\ it.kind = "arg"
+              THEN (IF it.adj THEN [r |-> "other"] ELSE [r |-> "head", id |-> it.id, depth |-> Len(s.frames)])
+              ELSE IF e.t # "name" /\ it.kind # "arg" THEN [r |-> "other"]
+              ELSE [r |-> "named", id |-> it.id, depth |-> Len(s.frames)]
+  ELSE IF e.t = "word" /\ Cur(s).lvl.tail.kind = "pos" THEN [r |-> "pos", depth |-> Len(s.frames)]
+  ELSE [r |-> "other"]
+\* a whole occurrence starting at k: [len, kind, id, depth] (len 0 = not something C03 permutes)
+GroupAt(d, l, k) ==
+  IF k > Len(l) THEN [len |-> 0] ELSE
+  LET r == Role(d, l, k) IN
+  CASE r.r = "named" -> [len |-> 1, kind |-> "named", id |-> r.id, depth |-> r.depth]
+    [] r.r = "pos"   -> [len |-> 1, kind |-> "pos", id |-> "", depth |-> r.depth]
+    [] r.r = "head"  -> IF k + 1 <= Len(l) /\ Role(d, l, k + 1).r = "value"
+                        THEN [len |-> 2, kind |-> "named", id |-> r.id, depth |-> r.depth]
+                        ELSE [len |-> 0]
+    [] OTHER -> [len |-> 0]
+SwapAt(l, k, a, b) == SubSeq(l, 1, k - 1) \o SubSeq(l, k + a, k + a + b - 1) \o SubSeq(l, k, k + a - 1)
+                      \o SubSeq(l, k + a + b, Len(l))
+\* exchanging two neighbouring occurrences that feed different fields (a named one with a named
+\* one, or a named one with a positional word) of the same level never changes the outcome
+SwapCommutes ==
+  \A k \in 1..Len(line) :
+    LET A == GroupAt(def, line, k) IN
+    A.len > 0 =>
+      LET B == GroupAt(def, line, k + A.len) IN
+      (B.len > 0 /\ A.depth = B.depth /\ ~(A.kind = "pos" /\ B.kind = "pos")
+         /\ ~(A.kind = "named" /\ B.kind = "named" /\ A.id = B.id)) =>
+        Outcome(Run(InitSt(def), SwapAt(line, k, A.len, B.len)), env) = Out
 =============================================================================
